@@ -15,7 +15,8 @@ Storage is abstract:
   `Trx.heads` — the keys of the `BTreeMap<CmdId, Location>` of written tips (ascending; map
   insertion on the key list is `Spec.hsPush`, the same sorted insert `HeadSet::push` does);
   `Trx.persp` — the in-flight perspective; `Trx.phead`; `Trx.pbase` — the tips the in-flight
-  perspective was opened on (they stay in `heads` until it is written out);
+  perspective covers (removed from `heads` when it was opened, still searched by `locate`,
+  restored when the perspective is dropped without being written);
   `Trx.offset` = `original_heads_offset`.
 * `locate` (search from the committed heads, then from the transaction's tips) is modelled by
   membership in `graph` / `written`: every written segment is reachable from a tip (`TipsInv`,
@@ -98,8 +99,8 @@ def flushErr (t : Trx) : Bool :=
   | none => false
 
 /-- state after `Transaction::flush` (also called by `get_perspective` and `add_merge`):
-`take(&mut self.perspective)`, reset `phead`/`pbase`, write the segment, retire the tips the
-perspective was opened on, record the new segment head as a tip -/
+`take(&mut self.perspective)`, reset `phead`, clear `pbase`, write the segment, record the new
+segment head as a tip -/
 def flushT (t : Trx) : Trx :=
   match t.persp with
   | none => t
@@ -107,7 +108,7 @@ def flushT (t : Trx) : Trx :=
     match p.cmds.getLast? with
     | none => { t with persp := none, phead := none, pbase := [] }
     | some c => { t with persp := none, phead := none, pbase := [], written := t.written ++ p.cmds,
-                         heads := hsPush (t.pbase.foldl (fun h i => h.erase i) t.heads) c.cmd.id }
+                         heads := hsPush t.heads c.cmd.id }
 
 /-- fold the rule over a braid order, collecting the effects (rejections inside a braid are
 skipped, their partial writes and effects stay — `evaluate_braid` has no revert) -/
@@ -140,8 +141,10 @@ def evalSingle (t : Trx) (ps : Persp) (fresh : Bool) (sink : List SinkEv) (c : C
     ({ t with persp := some ps', phead := some c.id }, sink ++ evs ++ [SinkEv.commit], none)
   else
     -- revert to the checkpoint (the perspective keeps `ps.facts`), roll the sink back, and
-    -- drop a perspective that was opened just for this command (F1 repair)
-    ((if fresh then { t with persp := none, phead := none, pbase := [] } else t),
+    -- drop a perspective that was opened just for this command, making the tips it covered
+    -- tips again (F1 repair)
+    ((if fresh then { t with persp := none, phead := none, heads := t.pbase.foldl hsPush t.heads, pbase := [] }
+      else t),
       sink ++ evs ++ [SinkEv.rollback], some .rejected)
 
 /-- `add_single` (with `get_perspective` inlined) -/
@@ -157,7 +160,9 @@ def addSingle (st : Store) (t : Trx) (sink : List SinkEv) (c : Cmd) (p : Nat) : 
     | none => (t1, sink, some .noSuchParent)
     | some s =>
       let ps : Persp := { prior := [p], cmds := [], facts := s }
-      evalSingle { t1 with persp := some ps, phead := some p, pbase := [p] } ps true sink c
+      -- `self.pbase = self.heads.remove_entry(&parent.id).into_iter().collect()`
+      evalSingle { t1 with persp := some ps, phead := some p, heads := t1.heads.erase p,
+                           pbase := if t1.heads.contains p then [p] else [] } ps true sink c
 
 /-- the graph a transaction braids over: committed commands and its own written segments -/
 def viewOf (st : Store) (t : Trx) : List SCmd :=
@@ -176,7 +181,8 @@ def addMerge (st : Store) (t : Trx) (sink : List SinkEv) (c : Cmd) (l r : Nat) :
       | .error e => (t1, sink, some e)
       | .ok (s, fx) =>
         let ps : Persp := { prior := [l, r], cmds := [⟨c, s⟩], facts := s }
-        ({ t1 with persp := some ps, phead := some c.id, pbase := [l, r] }, sink ++ braidEvs fx, none)
+        ({ t1 with persp := some ps, phead := some c.id, heads := (t1.heads.erase l).erase r,
+                   pbase := [l, r].filter (t1.heads.contains ·) }, sink ++ braidEvs fx, none)
 
 def perspIncludes (t : Trx) (i : Nat) : Bool :=
   match t.persp with
